@@ -104,8 +104,8 @@ func (s *BlockchainRpcTxWatcher) StartWatchingTxs() error {
 			case <-s.ctx.Done():
 				return nil
 			case nb := <-s.newBlockChan:
-				for _, obs := range s.observerLoopList {
-					go func(height uint32) { obs.blockChan <- height }(uint32(nb))
+				for _, blockChan := range s.observerBlockChans() {
+					go func(height uint32) { blockChan <- height }(uint32(nb))
 				}
 				// Todo: HandleCsvTx could also need a refresh.
 				err := s.HandleCsvTx(nb)
@@ -118,6 +118,19 @@ func (s *BlockchainRpcTxWatcher) StartWatchingTxs() error {
 		}
 	}()
 	return nil
+}
+
+// observerBlockChans returns the block channels of the running observation
+// loops. observerLoopList is written by AddWaitForConfirmationTx and by the
+// loops themselves when they end, so it is read under the lock.
+func (s *BlockchainRpcTxWatcher) observerBlockChans() []chan uint32 {
+	s.Lock()
+	defer s.Unlock()
+	chans := make([]chan uint32, 0, len(s.observerLoopList))
+	for _, obs := range s.observerLoopList {
+		chans = append(chans, obs.blockChan)
+	}
+	return chans
 }
 
 // StartBlockWatcher starts listening for new blocks
